@@ -1,7 +1,24 @@
 import Batteries.Tactic.Alias
 import GenlmModel.Proofs.Fst
 import GenlmModel.Proofs.Tab
+import GenlmModel.Proofs.Compose
+/-! # C09 — grammar∘transducer composition is relational composition
+About the mirror model `compose` / `composeAll` of `CFG.__matmul__` (weighted Bar-Hillel construction
+with the ε handling of the code: special rules `a → ε a`, `Other(S)`), every commutative semiring.
+`wsum (yields G n S) φ` is `Σ_x WN G n S x · φ x` over all strings. -/
 namespace Genlm.Props.C09
 alias oracle_transducer_path_sum := Genlm.TPNtab_spec
 alias oracle_derivation_sum := Genlm.WNtab_spec
+/-- THE composition theorem (ε on either tape, cycles, any grammar): the composed grammar's derivation sums and
+Σ_x G(x)·T(x,y) bound each other level-wise, so they have the same limit -/
+alias compose_is_relational_composition := Genlm.compose_eps
+alias compose_limit := Genlm.compose_limit
+/-- exact level identity for grammars without nullary rules and input-ε-free transducers -/
+alias compose_exact_epsfree := Genlm.compose_epsfree_exact
+alias compose_epsfree := Genlm.compose_epsfree
+/-- restricting the construction to the supported items (what the code builds) changes no weight -/
+alias pruning_irrelevant := Genlm.compose_eq_composeAll
+/-- acceptor / string composition is the pointwise product -/
+alias compose_acceptor := Genlm.compose_acceptor
+alias compose_string := Genlm.compose_string
 end Genlm.Props.C09
